@@ -181,7 +181,7 @@ pub fn gen_data(r: &mut Rng, rtype: u16, pool: bool) -> GData {
         T_MX => GData::Mx(r.next() as u16, gen_name(r, pool)),
         T_TXT => {
             // now and then more strings than a `u8` counts
-            let n = if r.chance(1, 40) { r.range(255, 300) } else { r.below(4) };
+            let n = if r.chance(1, 100) { r.range(255, 300) } else { r.below(4) };
             GData::Txt((0..n).map(|_| char_string(r, if n > 4 { 3 } else { 12 })).collect())
         }
         _ => GData::Raw((0..blob_len(r, 16)).map(|_| r.byte()).collect()),
@@ -246,8 +246,8 @@ pub fn gen_msg(r: &mut Rng, pool: bool) -> GMsg {
         2 => r.range(0, 3) as usize,
         _ => 1,
     };
-    // one message in eighty has more questions than a `u8` counts
-    let nq = if r.chance(1, 80) { r.range(255, 258) as usize } else { nq };
+    // one message in 200 has more questions than a `u8` counts
+    let nq = if r.chance(1, 200) { r.range(255, 258) as usize } else { nq };
     let questions: Vec<(GName, u16, u16)> = (0..nq)
         .map(|_| {
             (
@@ -265,8 +265,8 @@ pub fn gen_msg(r: &mut Rng, pool: bool) -> GMsg {
             3..=5 => r.range(1, 2),
             _ => r.range(2, 5),
         };
-        // one section in sixty has more records than a `u8` counts
-        let n = if r.chance(1, 60) { r.range(255, 300) } else { n };
+        // one section in 150 has more records than a `u8` counts
+        let n = if r.chance(1, 150) { r.range(255, 300) } else { n };
         for _ in 0..n {
             let rec = gen_rec(r, pool, &owners);
             owners.push(rec.owner.clone());
